@@ -811,6 +811,49 @@ let cmd_gentree seed count pullonly =
   done
 
 
+
+(* ---------- the conformant environment of a RECORDED trace (TraceEnv.v) ---------- *)
+
+(* "header | crate trace": the candidate next moves that are enabled in the state the trace leaves
+   (single subscription only), one line of move tokens *)
+let cmd_extend () =
+  try
+    while true do
+      let line = input_line stdin in
+      if String.trim line <> "" then begin
+        let (hs, ts) = split_bar line in
+        let h = parse_header hs in
+        let evs = List.filter_map parse_event (tokens ts) in
+        let nsk = nat_of_int h.nsk in
+        let vcount = ref 7 and ecount = ref 3 in
+        let seen = Hashtbl.create 16 in
+        let out = ref [] in
+        if h.subs <= 1 then
+          List.iter (fun (_, m) ->
+            let key = str_move m in
+            if not (Hashtbl.mem seen key) then begin
+              Hashtbl.add seen key ();
+              if enabled_on_trace h.sp h.pull nsk evs m then out := key :: !out
+            end) (candidates h vcount ecount);
+        print_endline (String.concat " " (List.rev !out))
+      end
+    done
+  with End_of_file -> ()
+
+(* "header | crate trace": is every environment event of the trace conformant in the state its prefix leaves? *)
+let cmd_tconf () =
+  try
+    while true do
+      let line = input_line stdin in
+      if String.trim line <> "" then begin
+        let (hs, ts) = split_bar line in
+        let h = parse_header hs in
+        let evs = List.filter_map parse_event (tokens ts) in
+        print_endline (if h.subs <= 1 && conformant_trace h.sp h.pull (nat_of_int h.nsk) evs then "1" else "0")
+      end
+    done
+  with End_of_file -> ()
+
 (* ---------- linear pipelines as nets of component models (Chain.v / NetDriver.v) ---------- *)
 
 (* "tk:2(fl:2:0(mp:1:1(fi:1,2,3)))" -> [from_iter; map; filter; take] (source first); None if not linear *)
@@ -931,6 +974,8 @@ let () =
   | _ :: "genpipe" :: seed :: count :: _ -> cmd_genpipe (int_of_string seed) (int_of_string count)
   | _ :: "run" :: _ -> cmd_run ()
   | _ :: "conf" :: _ -> cmd_conf ()
+  | _ :: "extend" :: _ -> cmd_extend ()
+  | _ :: "tconf" :: _ -> cmd_tconf ()
   | _ :: "chainrun" :: _ -> cmd_chainrun ()
   | _ :: "genchain" :: seed :: count :: _ -> cmd_genchain (int_of_string seed) (int_of_string count)
   | _ :: "mon" :: _ -> cmd_mon ()
